@@ -623,6 +623,60 @@ fn oracle_combo<C: RangeCombo>(rng: &mut Rng, w: u32, s: u32, bps: &[(u32, Vec<u
             rep.sample("C07", || format!("{} | intodec | seekto 0", desc_with_snaps(&head, &msg)));
         }
 
+        // ---------------- C07 over a reversed backend: the encoder writes into `Reverse<Cursor>` (back to
+        // front), the decoder reads the same buffer through `Reverse<Cursor>`; snapshots come from the
+        // encoder's own `pos()`.  A failure is tagged with whether the snapshot was taken while words
+        // were held back (`held-words=yes`: the open finding D33 — `RangeEncoder::pos` adds the number of
+        // held words, which is right only for sinks whose position grows) ----------------
+        if !msg.is_empty() && prefix.is_empty() {
+            use constriction::backends::Reverse;
+            note("C07", &format!("{} | reverse-sink | seekto …", desc_with_snaps(&head, &msg)));
+            let cap = sealed.len() + 2 + (rng.next() % 4) as usize;
+            let r = guarded(|| {
+                let mut e = RangeEncoder::<C::W, C::S, _>::with_backend(Reverse(Cursor::new_at_write_end(vec![from_u128::<C::W>(0); cap])));
+                let mut rsnaps = Vec::new();
+                for (b, p, cdf, sym) in msg.iter() {
+                    rsnaps.push(e.pos());
+                    if C::enc_sym_any(&mut e, *b, *p, cdf, *sym).unwrap() != "ok" {
+                        return None;
+                    }
+                }
+                rsnaps.push(e.pos());
+                let bk = e.into_compressed().ok()?;
+                let (buf, pos) = bk.0.into_buf_and_pos();
+                Some((rsnaps, buf, pos))
+            });
+            if let Ok(Some((rsnaps, buf, endpos))) = r {
+                rep.eval("C07");
+                rep.count("C07.reverse_sink_messages");
+                // the sink holds the sealed words back to front
+                let got: Vec<u128> = buf[endpos..].iter().rev().map(|&x| to_u128(x)).collect();
+                if got != sealed {
+                    caps.fail(rep, "C07", &tag, format!("{} | reverse-sink => the reversed sink holds {} but a Vec sink {}", plain, show_list(got), show_list(sealed.clone())));
+                } else {
+                    for _ in 0..(1 + rng.next() % 5) {
+                        let i = rng.below(rsnaps.len() as u128) as usize;
+                        let cnt = rng.below((msg.len() - i) as u128 + 1) as usize;
+                        let held = snaps.get(i).map(|x| x.2).unwrap_or(false);
+                        rep.eval("C07");
+                        if held {
+                            rep.count("C07.reverse_sink_seek_to_held_snapshot");
+                        }
+                        let (pos, st) = rsnaps[i];
+                        let res = guarded(|| {
+                            let mut d = RangeDecoder::<C::W, C::S, _>::with_backend(Reverse(Cursor::new_at_write_end(buf.clone()))).map_err(|_| "decoder refused".to_string())?;
+                            d.seek((pos, st)).map_err(|_| "seek rejected".to_string())?;
+                            decode_expect::<C, _>(&mut d, &msg[i..i + cnt])
+                        });
+                        let res = match res { Ok(r) => r, Err(class) => Err(class.to_string()) };
+                        if let Err(t) = res {
+                            caps.fail(rep, "C07", &tag, format!("{} (snap after symbol {:x}) | reverse-sink held-words={} | seekto {:x}{} => {}", desc_with_snaps(&head, &msg), i, if held { "yes" } else { "no" }, i, msg_decs(&msg[i..i + cnt]), t));
+                        }
+                    }
+                }
+            }
+        }
+
         // ---------------- C11: arbitrary suffix ----------------
         if !msg.is_empty() {
             let mw = mask(w);
